@@ -16,7 +16,7 @@ pub static DEF: PropDef = PropDef {
         "scope: rooms created by the workload and user entities; rows the library writes at start-up through its generic writer (dated 0, private room) are not local writes and are excluded",
         "the recompute barrier relies on FIFO order of the database actor, writer and event service queues",
     ],
-    cases: |t| t.pick(120, 2500),
+    cases: |t| t.pick(240, 2500),
     shards: |t| t.pick(12, 16),
     case_budget_s: |_| 240,
     min_conclusive: |t| t.pick(40, 800),
